@@ -211,10 +211,11 @@ def replay(path):
         validate_trace("base/PlannerContractTrace", tr, json_sink=bad.append)
         print(label, "report:", "REJECTED %s" % bad[0]["failed"] if bad else "accepted")
         rc |= 1 if bad else 0
-    if r.get("e") in ("Solve", "Hang"):
+    if r.get("e") in ("Solve", "Hang", "Crash"):
         case = {"W": r["W"], "H": r["H"], "obst": r["obst"], "start": r["start"], "goal": r["goal"]}
         run = {"planner": r["planner"], "space": r["space"], "thr": r["thr"], "range": r["range"],
-               "budget": r["budget"], "seed": r["seed"], "res": r.get("resFrac", 10000) / 1e6}
+               "budget": r["budget"], "seed": r["seed"], "res": r.get("resFrac", 10000) / 1e6,
+               "query": r.get("query", "single")}
         jp = os.path.join(d, "job.ndjson")
         vlib.write_ndjson(jp, [{"case": case, "runs": [run]}])
         out = os.path.join(d, "rerun.ndjson")
